@@ -40,7 +40,7 @@ from harness.core import MachineryError
 ALLOPS = ['split_obs', 'split_channel', 'split_time', 'split_merge', 'subset_obs', 'subset_channel',
           'subset_time', 'sort_by', 'merge', 'odd_even', 'nested_odd_even', 'bin_time',
           'time_as_observations', 'time_as_channels', 'df', 'copy', 'dict',
-          'average_by', 'tensor', 'drop']
+          'average_by', 'tensor', 'average', 'drop']
 INVS = ['Shape', 'CellAssoc', 'DescAttached']
 PID = 'C11'
 
@@ -251,13 +251,28 @@ def probes(ctx):
     import warnings
     from rsatoolbox.data.dataset import TemporalDataset
     fl = ('array', 'int')
+    S.configure('float64', 'f1')
+
+    def empty_or_raises(f):
+        """a call outside the contract either raises or hands back an empty object"""
+        r = f()
+        if getattr(r, 'n_obs', 1) == 0 or getattr(r, 'n_channel', 1) == 0:
+            raise ValueError(f'returns an empty dataset ({r.n_obs} x {r.n_channel})')
+        if np.isnan(np.asarray(r.measurements, dtype=float)).any():
+            raise ValueError('returns NaN measurements')
     cases = {
-        'bin_time/extra-time-descriptor': lambda: S.make_source(30223, fl).bin_time('time', [np.array([1., 2.])]),
-        'bin_time/bins-as-plain-lists': lambda: S.make_source(20223, fl).bin_time('time', [[1., 2.], [3.]]),
         'to_df/temporal': lambda: S.make_source(20222, fl).to_df(),
         'odd_even_split/single-value': lambda: S.make_source(10120, fl).odd_even_split('cond'),
         'time_as_observations/duplicate-by': lambda: S.make_source(30223, fl).time_as_observations('phase'),
         'average_dataset_by/temporal': lambda: __import__('rsatoolbox').data.average_dataset_by(S.make_source(20222, fl), 'cond'),
+        # values of subset_* are "a value or a list of values": a set is compared as one value
+        'subset_obs/value-as-set': lambda: empty_or_raises(lambda: S.make_source(10320, fl).subset_obs('cond', {1, 2})),
+        # grouping / sorting on a descriptor with missing entries (None next to strings cannot be ordered)
+        'split_obs/missing-values': lambda: S.make_source(40320, ('list', 'str')).split_obs('flag'),
+        'sort_by/missing-values': lambda: S.make_source(40320, ('list', 'str')).sort_by('flag'),
+        'bin_time/by-a-label': lambda: S.make_source(60223, fl).bin_time('phase', [['p01']]),
+        'bin_time/empty-bin': lambda: empty_or_raises(lambda: S.make_source(20223, fl).bin_time('time', [[7.]])),
+        'get_measurements_tensor/unbalanced': lambda: S.make_source(10320, fl).get_measurements_tensor('cond'),
     }
     for name, f in cases.items():
         try:
@@ -288,15 +303,15 @@ def run(ctx):
     total = 0
     # (name, sources, depth, arglevel, emit one in .., constants, ops, binlen)
     if thorough:
-        runs = [('size1_d2', [20122, 20312, 30321, 20111, 10110, 10130, 30113, 40210], 2, 2, 1, c, 'C11Ops', 2),
-                ('d2_full', [40322, 20322, 30322, 10420, 50421, 20223], 2, 2, 1, c, 'C11Ops', 2),
+        runs = [('size1_d2', [20122, 20312, 60321, 20111, 10110, 10130, 60113, 40210], 2, 2, 1, c, 'C11Ops', 2),
+                ('d2_full', [40322, 20322, 60322, 10420, 50421, 60223], 2, 2, 1, c, 'C11Ops', 2),
                 ('d2_full_b', [10432, 20413], 2, 2, 1, c, 'C11Ops', 2),
-                ('d3_trim', [20222, 30222, 40320, 20312, 20122], 3, 1, 1, c, 'C11Ops', 2),
+                ('d3_trim', [20222, 60222, 40320, 20312, 20122], 3, 1, 1, c, 'D3Ops', 2),
                 ('big_d2', [11820, 21822, 31821], 2, 1, 1, cbig, 'RowOps', 2)]
     else:
-        runs = [('size1_d2', [20122, 20312, 30321, 20111, 10110, 40420], 2, 1, 1, c, 'C11Ops', 2),
-                ('d2_full', [40322, 30322, 20223], 2, 2, 4, c, 'C11Ops', 2),
-                ('d3_trim', [20222], 3, 1, 12, c, 'C11Ops', 2),
+        runs = [('size1_d2', [20122, 20312, 60321, 20111, 10110, 40420], 2, 1, 1, c, 'C11Ops', 2),
+                ('d2_full', [40322, 60223], 2, 2, 4, c, 'C11Ops', 2),
+                ('d3_trim', [20222], 3, 1, 12, c, 'D3Ops', 2),
                 ('big_d2', [11820, 21822], 2, 1, 1, cbig, 'RowOps', 2)]
     ctx.exhaustive = all(x[4] == 1 for x in runs)
     for name, sources, depth, al, mod, cc, ops, binlen in runs:
@@ -308,12 +323,12 @@ def run(ctx):
         ctx.sample({'run': name, 'src': first['src'], 'events': [st['ev'] for st in first['hist']]}, cap=8)
         total += replay_all(ctx, r, cc, seen_ops)
     # the Python decoding of ghost labels against Obs() printed by TLC
-    r = ctx.tlc('MC_DataStore', cfg([30322, 20223, 40320], 2, 1, c, emitmod=5, emitobs=1), name='mirror',
+    r = ctx.tlc('MC_DataStore', cfg([60223, 40320], 2, 1, c, emitmod=5, emitobs=1), name='mirror',
                 timeout=900, deque=True, count=False)
     ctx.extra['mirror_objects_checked'] = mirror_check(ctx, r)
     # long random behaviours of the specification (trimmed argument domains keep -simulate usable)
     nsim, dsim = (10, 10) if thorough else (2, 6)     # traces per worker; every trace emits all its last successors
-    r = ctx.tlc('MC_DataStore', cfg([50322, 30322, 40420, 20223], dsim, 1, const(maxobj=4), props=False),
+    r = ctx.tlc('MC_DataStore', cfg([50322, 60322, 40420, 20223], dsim, 1, const(maxobj=4), props=False),
                 name='sim', simulate=f'num={nsim}', depth=dsim + 1, workers=16, timeout=1200)
     if r.n_emitted < 16 * nsim:
         raise MachineryError(f'simulation emitted only {r.n_emitted} behaviours')
@@ -325,7 +340,7 @@ def run(ctx):
     ctx.extra['operations_replayed'] = sorted(seen_ops)
     ctx.traces += total
     # implementation -> specification
-    tsrc = [40432, 20432, 30432, 50423, 30333, 20113, 20131, 10140, 20122]
+    tsrc = [40432, 20432, 60432, 50423, 60333, 20113, 20131, 10140, 20122]
     n = record_and_validate(ctx, tsrc, const(maxobj=4), 3000 if thorough else 320, 16 if thorough else 10)
     ctx.extra['recorded_histories_validated'] = n
     binding_selftest(ctx, tsrc[:4], const(maxobj=4))
